@@ -3,8 +3,10 @@ package main
 import (
 	"encoding/json"
 	"math/rand"
+	"strconv"
 	"strings"
 	"sync"
+	"sync/atomic"
 	"time"
 
 	"github.com/anthdm/hollywood/actor"
@@ -455,3 +457,350 @@ func runReqCollide(raw json.RawMessage) (any, error) {
 }
 
 func init() { families["reqcollide"] = runReqCollide }
+
+// ---------------------------------------------------------------------------
+// reqstorm: P requester goroutines in parallel, each issuing uniquely tokenised
+// requests to echo responders.  Probabilistic detector for faults that need
+// truly parallel Request calls (e.g. response ids that collide).  Nothing here
+// depends on an upper bound on elapsed time: a timeout is recorded, never judged.
+type stormCase struct {
+	Goroutines int `json:"goroutines"`
+	Per        int `json:"per"` // requests per goroutine
+	Responders int `json:"responders"`
+	TimeoutMs  int `json:"timeout_ms"`
+}
+
+type stormAnomaly struct {
+	Kind  string `json:"kind"` // wrong | foreign | registered | timeout | panic
+	G     int    `json:"g"`
+	N     int    `json:"n"`
+	PID   string `json:"pid"`
+	GotG  int    `json:"got_g"`
+	GotN  int    `json:"got_n"`
+	Other string `json:"other_pid,omitempty"` // response PID of the request whose reply was returned
+}
+
+type stormObs struct {
+	Requests         int            `json:"requests"`          // completed Request+Result pairs
+	Values           int            `json:"values"`            // ... that returned their own token
+	Wrong            int            `json:"wrong"`             // returned the token of another request
+	WrongUnexplained int            `json:"wrong_unexplained"` // ... although the two response PIDs differ
+	Foreign          int            `json:"foreign"`           // returned something that is no token
+	StillRegistered  int            `json:"still_registered"`  // after Result(): the Response is still the registry entry of its PID
+	Collisions       int            `json:"collisions"`        // ActorDuplicateIdEvents for response PIDs
+	Timeouts         int            `json:"timeouts"`          // recorded, not judged
+	TimeoutsNoDup    int            `json:"timeouts_no_dup"`   // ... whose response PID was never reported as a duplicate
+	Panics           int            `json:"panics"`
+	First            []stormAnomaly `json:"first"`
+	Millis           int64          `json:"ms"`
+}
+
+type stormTok struct{ G, N int }
+
+func stillRegistered(e *actor.Engine, resp *actor.Response) bool {
+	p := e.Registry.VerifGet(resp.PID())
+	r, ok := p.(*actor.Response)
+	return ok && r == resp
+}
+
+func runReqStorm(raw json.RawMessage) (any, error) {
+	var c stormCase
+	if err := json.Unmarshal(raw, &c); err != nil {
+		return nil, err
+	}
+	if c.Goroutines == 0 {
+		c.Goroutines = 16
+	}
+	if c.Responders == 0 {
+		c.Responders = 8
+	}
+	if c.TimeoutMs == 0 {
+		c.TimeoutMs = 2000
+	}
+	e, err := actor.NewEngine(actor.NewEngineConfig())
+	if err != nil {
+		return nil, err
+	}
+	var mu sync.Mutex
+	dupIDs := map[string]int{}
+	var stop, ndup int32
+	mon := e.SpawnFunc(func(ctx *actor.Context) {
+		if ev, ok := ctx.Message().(actor.ActorDuplicateIdEvent); ok && ev.PID != nil && strings.HasPrefix(ev.PID.ID, "response/") {
+			mu.Lock()
+			dupIDs[ev.PID.ID]++
+			n := 0
+			for _, k := range dupIDs {
+				n += k
+			}
+			mu.Unlock()
+			atomic.StoreInt32(&ndup, int32(n))
+			if n >= 2 {
+				atomic.StoreInt32(&stop, 1)
+			}
+		}
+	}, "monitor", actor.WithID("m"))
+	e.Subscribe(mon)
+	responders := make([]*actor.PID, c.Responders)
+	for a := range responders {
+		responders[a] = e.SpawnFunc(func(ctx *actor.Context) {
+			if t, ok := ctx.Message().(stormTok); ok {
+				ctx.Respond(t)
+			}
+		}, "echo", actor.WithID(strconv.Itoa(a)))
+	}
+	time.Sleep(2 * time.Millisecond)
+	ids := make([][]string, c.Goroutines)
+	var anomalies []stormAnomaly
+	obs := stormObs{First: []stormAnomaly{}}
+	timeout := time.Duration(c.TimeoutMs) * time.Millisecond
+	var wg sync.WaitGroup
+	start := make(chan struct{})
+	t0 := time.Now()
+	for g := 0; g < c.Goroutines; g++ {
+		g := g
+		ids[g] = make([]string, 0, c.Per)
+		wg.Add(1)
+		go func() {
+			defer wg.Done()
+			<-start
+			var done, values int
+			var local []stormAnomaly
+			// the budget is c.Per requests; a single collision seen so far (which a 31-bit uniform id
+			// source produces about once in 10^8 requests) extends it threefold to look for a second one
+			for n := 0; (n < c.Per || (n < 3*c.Per && atomic.LoadInt32(&ndup) == 1)) && atomic.LoadInt32(&stop) == 0; n++ {
+				func() {
+					defer func() {
+						if v := recover(); v != nil {
+							local = append(local, stormAnomaly{Kind: "panic", G: g, N: n})
+						}
+					}()
+					tok := stormTok{G: g, N: n}
+					resp := e.Request(responders[(g+n)%len(responders)], tok, timeout)
+					pid := resp.PID().ID
+					ids[g] = append(ids[g], pid)
+					v, err := resp.Result()
+					if stillRegistered(e, resp) {
+						local = append(local, stormAnomaly{Kind: "registered", G: g, N: n, PID: pid})
+						atomic.StoreInt32(&stop, 1)
+					}
+					done++
+					switch {
+					case err != nil:
+						local = append(local, stormAnomaly{Kind: "timeout", G: g, N: n, PID: pid})
+					default:
+						got, ok := v.(stormTok)
+						switch {
+						case !ok:
+							local = append(local, stormAnomaly{Kind: "foreign", G: g, N: n, PID: pid})
+							atomic.StoreInt32(&stop, 1)
+						case got != tok:
+							local = append(local, stormAnomaly{Kind: "wrong", G: g, N: n, PID: pid, GotG: got.G, GotN: got.N})
+						default:
+							values++
+						}
+					}
+				}()
+			}
+			mu.Lock()
+			obs.Requests += done
+			obs.Values += values
+			anomalies = append(anomalies, local...)
+			mu.Unlock()
+		}()
+	}
+	close(start)
+	wg.Wait()
+	obs.Millis = time.Since(t0).Milliseconds()
+	// let the duplicate-id events arrive
+	for s := 0; s < 400 && !(actor.VerifIdle(e, mon) && actor.VerifIdle(e, actor.VerifEventStream(e))); s++ {
+		time.Sleep(5 * time.Millisecond)
+	}
+	mu.Lock()
+	defer mu.Unlock()
+	for _, k := range dupIDs {
+		obs.Collisions += k
+	}
+	for _, a := range anomalies {
+		switch a.Kind {
+		case "wrong":
+			obs.Wrong++
+			if a.GotG >= 0 && a.GotG < len(ids) && a.GotN >= 0 && a.GotN < len(ids[a.GotG]) {
+				a.Other = ids[a.GotG][a.GotN]
+			}
+			if a.Other != a.PID {
+				obs.WrongUnexplained++
+			}
+		case "foreign":
+			obs.Foreign++
+		case "registered":
+			obs.StillRegistered++
+		case "timeout":
+			obs.Timeouts++
+			if dupIDs[a.PID] == 0 {
+				obs.TimeoutsNoDup++
+			}
+		case "panic":
+			obs.Panics++
+		}
+		if len(obs.First) < 6 {
+			obs.First = append(obs.First, a)
+		}
+	}
+	return obs, nil
+}
+
+// ---------------------------------------------------------------------------
+// reqboundary: requester/responder pairs; the responder busy-waits and replies
+// at an instant swept around the moment Result()'s timeout fires.  After EVERY
+// Result() the response PID must be unregistered; a returned value must be the
+// token of that request.  Probabilistic detector for faults in the
+// reply-versus-timeout race; the verdict is purely logical (no elapsed-time bound).
+type boundaryCase struct {
+	Pairs     int `json:"pairs"`
+	Rounds    int `json:"rounds"`
+	TimeoutUs int `json:"timeout_us"`
+	FromUs    int `json:"from_us"`
+	ToUs      int `json:"to_us"`
+}
+
+type boundaryHit struct {
+	Kind     string `json:"kind"` // registered | wrong | foreign
+	Pair     int    `json:"pair"`
+	Round    int    `json:"round"`
+	OffsetUs int    `json:"offset_us"`
+	Value    bool   `json:"value"` // Result() returned a value (not the error)
+	PID      string `json:"pid"`
+}
+
+type boundaryObs struct {
+	Rounds          int           `json:"rounds"`
+	Values          int           `json:"values"`
+	Errors          int           `json:"errors"`
+	StillRegistered int           `json:"still_registered"`
+	Wrong           int           `json:"wrong"`
+	Foreign         int           `json:"foreign"`
+	Panics          int           `json:"panics"`
+	First           []boundaryHit `json:"first"`
+	Millis          int64         `json:"ms"`
+}
+
+type bReq struct {
+	Tok    int64
+	Offset time.Duration
+	T0     *int64 // nanoseconds since base at which the requester called Result(); 0 = not yet
+	Done   chan struct{}
+}
+
+func runReqBoundary(raw json.RawMessage) (any, error) {
+	var c boundaryCase
+	if err := json.Unmarshal(raw, &c); err != nil {
+		return nil, err
+	}
+	if c.Pairs == 0 {
+		c.Pairs = 6
+	}
+	if c.TimeoutUs == 0 {
+		c.TimeoutUs = 400
+	}
+	if c.ToUs <= c.FromUs {
+		c.FromUs, c.ToUs = -20, 230
+	}
+	e, err := actor.NewEngine(actor.NewEngineConfig())
+	if err != nil {
+		return nil, err
+	}
+	base := time.Now()
+	timeout := time.Duration(c.TimeoutUs) * time.Microsecond
+	var mu sync.Mutex
+	obs := boundaryObs{First: []boundaryHit{}}
+	var stop int32
+	var wg sync.WaitGroup
+	span := c.ToUs - c.FromUs + 1
+	for p := 0; p < c.Pairs; p++ {
+		p := p
+		responder := e.SpawnFunc(func(ctx *actor.Context) {
+			m, ok := ctx.Message().(bReq)
+			if !ok {
+				return
+			}
+			defer close(m.Done)
+			// wait (bounded) for the requester to enter Result(), then for the instant
+			limit := time.Since(base) + 200*time.Millisecond
+			var t0 int64
+			for t0 = atomic.LoadInt64(m.T0); t0 == 0 && time.Since(base) < limit; t0 = atomic.LoadInt64(m.T0) {
+			}
+			at := time.Duration(t0) + timeout + m.Offset
+			for time.Since(base) < at {
+			}
+			ctx.Respond(m.Tok)
+		}, "boundary", actor.WithID(strconv.Itoa(p)))
+		wg.Add(1)
+		go func() {
+			defer wg.Done()
+			var local boundaryObs
+			for r := 0; r < c.Rounds && atomic.LoadInt32(&stop) == 0; r++ {
+				off := c.FromUs + (r*37+p*11)%span
+				func() {
+					defer func() {
+						if v := recover(); v != nil {
+							local.Panics++
+						}
+					}()
+					tok := int64(p)<<32 | int64(r)
+					var t0 int64
+					done := make(chan struct{})
+					resp := e.Request(responder, bReq{Tok: tok, Offset: time.Duration(off) * time.Microsecond, T0: &t0, Done: done}, timeout)
+					atomic.StoreInt64(&t0, int64(time.Since(base))+1)
+					v, err := resp.Result()
+					reg := stillRegistered(e, resp)
+					local.Rounds++
+					hit := func(kind string) {
+						local.First = append(local.First, boundaryHit{Kind: kind, Pair: p, Round: r, OffsetUs: off, Value: err == nil, PID: resp.PID().ID})
+					}
+					if reg {
+						local.StillRegistered++
+						hit("registered")
+						atomic.StoreInt32(&stop, 1)
+					}
+					if err != nil {
+						local.Errors++
+					} else if got, ok := v.(int64); !ok {
+						local.Foreign++
+						hit("foreign")
+					} else if got != tok {
+						local.Wrong++
+						hit("wrong")
+					} else {
+						local.Values++
+					}
+					select {
+					case <-done:
+					case <-time.After(5 * time.Second):
+					}
+				}()
+			}
+			mu.Lock()
+			obs.Rounds += local.Rounds
+			obs.Values += local.Values
+			obs.Errors += local.Errors
+			obs.StillRegistered += local.StillRegistered
+			obs.Wrong += local.Wrong
+			obs.Foreign += local.Foreign
+			obs.Panics += local.Panics
+			for _, h := range local.First {
+				if len(obs.First) < 6 {
+					obs.First = append(obs.First, h)
+				}
+			}
+			mu.Unlock()
+		}()
+	}
+	wg.Wait()
+	obs.Millis = time.Since(base).Milliseconds()
+	return obs, nil
+}
+
+func init() {
+	families["reqstorm"] = runReqStorm
+	families["reqboundary"] = runReqBoundary
+}
